@@ -5,7 +5,7 @@ from fractions import Fraction
 
 from ..numeval import CannotEvaluate, evaluate
 from ..spec import GAMMAS, SCORES, POS, NEG, EP, EN, T, returns, raises, unmodelled_text, pc_text
-from ..terms import App, Const, Num, Sym, Tup, same, show, sub, add, mul, div, subst, atoms_of, to_poly, mk_num, negate
+from ..terms import App, Const, Num, Sym, Tup, same, show, sub, add, mul, div, subst, atoms_of, to_poly, mk_num, negate, neg
 from ..simp import mk_app
 from .c01 import derive_cm_table
 from .thr import METRICS, METHODS, R, TAR, env_for, explore_threshold, rate_term, SCORE_REPS
@@ -29,10 +29,49 @@ def zero_facts(pc):
         cc = c if taken else negate(c)
         if isinstance(cc, App) and cc.fn == "le0":
             p = to_poly(cc.args[0])
-            if p.const_value() == 0 and all(co > 0 and len(mo) == 1 and mo[0][1] == 1 and mo[0][0] in (EP, EN) for mo, co in p.t.items()):
+            if p.const_value() == 0 and all(co > 0 and len(mo) == 1 and mo[0][1] == 1 and mo[0][0] in (EP, EN, HP, HN) for mo, co in p.t.items()):
                 for mo in p.t:
                     m[mo[0][0]] = Const(0)
     return m
+
+
+def ite_cases(pc, v, depth=3):
+    """[(path condition, value)]: every conditional expression merged into an `ite` term is split into its two cases, dropping a case the path
+    condition already contradicts (counts are non-negative: `Ep + len(pos) > 0` follows from `len(pos) != 0`)."""
+    def positive(a, pc_):
+        for c, t in pc_:
+            if isinstance(c, App) and c.fn == "eq0" and c.args and same(c.args[0], a) and not t:
+                return True
+            if isinstance(c, App) and c.fn == "lt0" and c.args and same(c.args[0], neg(a)) and t:
+                return True
+        return False
+
+    def decided(cond, pc_):
+        # cond = lt0(-(sum of non-negative counts))  i.e.  sum > 0
+        if isinstance(cond, App) and cond.fn == "lt0":
+            p = to_poly(neg(cond.args[0]))
+            if p is not None and p.const_value() == 0 and all(co > 0 and len(mo) == 1 and mo[0][1] == 1 and mo[0][0] in (EP, EN, HP, HN) for mo, co in p.t.items()):
+                if any(positive(mo[0][0], pc_) for mo in p.t):
+                    return True
+        for c, t in pc_:
+            if c == cond:
+                return t
+        return None
+    cases = [(list(pc), v)]
+    for _ in range(depth):
+        nxt = []
+        for pc_, v_ in cases:
+            it_ = next((a for a in [v_] + list(atoms_of(v_)) if isinstance(a, App) and a.fn == "ite" and len(a.args) == 3), None) if hasattr(v_, "key") else None
+            if it_ is None:
+                nxt.append((pc_, v_))
+                continue
+            d = decided(it_.args[0], pc_)
+            for pol, arm in ((True, it_.args[1]), (False, it_.args[2])):
+                if d is not None and d != pol:
+                    continue
+                nxt.append((pc_ + [(it_.args[0], pol)], subst(v_, {it_: arm}) if v_ != it_ else arm))
+        cases = nxt
+    return cases
 
 
 def unclamp(v):
@@ -108,11 +147,17 @@ def run(ctx, chk, tier):
             continue
         ok = True
         for o in outs:
-            z = zero_facts(o.pc)
-            got, want = subst(o.value, z), subst(spec, z)
-            if not same(got, want):
-                ok = False
-                chk.violation("R09.2", q, "value[%s]" % pc_text(o), show(got, 200), show(want, 200), ctx.where(q))
+            # a conditional EXPRESSION (`q if total > 0 else 1.0`, merged into an ite term) is split into its cases like a branching `if`
+            for pc_, v_ in ite_cases(o.pc, o.value):
+                z = zero_facts(pc_)
+                # where the facts of the case make the specified quotient 0/0 (no samples of the class at all) the specification says nothing
+                dens = [a.args[0] for a in atoms_of(spec) if isinstance(a, App) and a.fn == "inv"]
+                if any(same(subst(d_, z), Const(0)) for d_ in dens):
+                    continue
+                got, want = subst(v_, z), subst(spec, z)
+                if not same(got, want):
+                    ok = False
+                    chk.violation("R09.2", q, "value[%s]" % pc_text(o), show(got, 200), show(want, 200), ctx.where(q))
         if ok:
             chk.hold("R09.2", "property:" + name, "%s = %s on %d path(s)" % (name, show(spec, 120), len(outs)))
     inverse_maps(ctx, chk)
@@ -157,9 +202,12 @@ def inverse_maps(ctx, chk, metrics=METRICS):
                 chk.unknown("R09.2", "%s: helper call not found" % inst)
                 continue
             ok = True
-            for o in outs:
-                z = zero_facts(o.pc)
-                got = subst(unclamp(o.captured["target_ratio"]), z)
+            for o, pc_, tr_ in [(o, pc_, tr_) for o in outs for pc_, tr_ in ite_cases(o.pc, unclamp(o.captured["target_ratio"]))]:
+                z = zero_facts(pc_)
+                dens = [a.args[0] for a in atoms_of(want) if isinstance(a, App) and a.fn == "inv"]
+                if any(same(subst(d_, z), Const(0)) for d_ in dens):
+                    continue        # the case has no sample of the class at all: the affine map is 0/0 there
+                got = subst(unclamp(tr_), z)
                 w = subst(want, z)
                 if same(got, w):
                     continue
